@@ -58,7 +58,13 @@ Fixpoint walk (ci i : nat) (settings_ : list settings) (ops : list op20) (st : p
           ((if lres_eqb mr r then [] else [(ci, i, 1)]) ++
            walk ci (S i) settings_ ops' st1 fs
                 (clients ++ [match mr with LObj j => Some j | _ => None end])
-                (rcs ++ [ref_of fs s (match r with LErr => false | _ => true end) (length rcs)]))%list
+                (* identical settings loaded again are served from the pool: the client shares the configuration (and the
+                   reference) of the first successful load of those settings - the file is not read again *)
+                (rcs ++ [match find (fun rc => rc_ok rc && id_eqb (pool_id (rc_settings rc)) (pool_id s) &&
+                                               negb (String.eqb (ts_ca s) "" && String.eqb (ts_file s) "" && match ts_skip s with None => true | Some _ => false end)) rcs with
+                         | Some rc0 => {| rc_settings := s; rc_ok := true; rc_insecure := rc_insecure rc0; rc_extra := rc_extra rc0; rc_index := length rcs |}
+                         | None => ref_of fs s (match r with LErr => false | _ => true end) (length rcs)
+                         end]))%list
       | OWrite f content =>
           walk ci (S i) settings_ ops' (rewrite_file st f content) (set_key f content fs) clients rcs
       | OWait => walk ci (S i) settings_ ops' (tick pem_ok st) fs clients (map (ref_wait fs) rcs)
